@@ -48,7 +48,8 @@ class MServer(object):
         self.nick = "srv-%d" % i
         # a share of the servers also announce HTTP storage (NURLs): clients that do not force Foolscap then build
         # HTTPNativeStorageServer objects for them
-        self.port = 20000 + rng.randrange(40000)
+        # unique within a case (i < 64): the fake HTTP endpoints and the allocate_buckets log are keyed by port
+        self.port = 20000 + 64 * rng.randrange(600) + i
         self.nurls = None
         if rng.random() < .4:
             self.nurls = ["pb://1WUX44xKjKdpGLohmFcBNuIRN-8rlv1Iij_7rQ4jR1I@127.0.0.%d:%d/sw%d#v=1" % (i + 1, self.port, i)]
@@ -333,6 +334,7 @@ def run(ck):
         return {"mode": mode, "psi": psi, "now_us": now_us, "preferred": list(preferred),
                 "grid_manager_keys": [k.pub_s for k in configured],
                 "servers": [{"id": s.sid, "seed": s.seed(), "connected": s.connected, "path": s.path,
+                             "nurls": s.nurls,
                              "certs": [(c[0], c[4] - T0) for c in s.certs]} for s in servers]}
 
     def check_broker(h, servers, preferred, configured, psi, tag):
@@ -498,6 +500,8 @@ def run(ck):
             foreign = Key(rng, "Mx")
             horizon = rng.choice([1000, 3600 * 10 ** 6, 10 ** 13])
             servers = [MServer(rng, i, horizon) for i in range(n)]
+            if len(set(x.port for x in servers)) != len(servers):
+                raise RuntimeError("harness: two model servers share an HTTP port")
             if n >= 2 and rng.random() < .12:
                 servers[1].seed_ann = servers[0].seed()          # two servers announcing the same seed (tie)
             # certificates
